@@ -261,6 +261,9 @@ class Runner:
                     b[i] -= h
                     if a[i] > sp["maxs"][i] or b[i] < sp["mins"][i]:
                         return None
+                    if 0 < abs(a[i]) < 2e-6 or 0 < abs(b[i]) < 2e-6:
+                        return None         # a stencil point inside the library's 1e-6 'near zero' cut-off (known finding
+                                            # exp_cutoff) says nothing about the Jacobian at theta: that column is skipped
                     return (arm.FK(a).gTM() - arm.FK(b).gTM()) / (2 * h)
                 d1, d2 = dT(1e-3), dT(5e-4)
                 if d1 is None or d2 is None:
